@@ -66,14 +66,12 @@ int disasm_pdk14(
           snprintf(instruction, length, "%s [%d]", table_pdk14[n].instr, m);
           return 2;
         case OP_A_M6:
-          bit = (opcode >> 6) & 0x7;
           m = opcode & 0x7e;
-          snprintf(instruction, length, "%s a, [%d].%d", table_pdk14[n].instr, m, bit);
+          snprintf(instruction, length, "%s a, [%d]", table_pdk14[n].instr, m);
           return 2;
         case OP_M6_A:
-          bit = (opcode >> 6) & 0x7;
           m = opcode & 0x7e;
-          snprintf(instruction, length, "%s [%d].%d, a", table_pdk14[n].instr, m, bit);
+          snprintf(instruction, length, "%s [%d], a", table_pdk14[n].instr, m);
           return 2;
         case OP_A_M:
           m = opcode & 0x7f;
